@@ -24,7 +24,7 @@ LEVEL = 'fault_enumeration'
 RULE = ('arrangements: {output: factory | open stream} x {map: none | separate factory | separate open stream | same '
         'stream (inline)} x {names: absolute | relative | missing} x {nodes: single | list | generator | several '
         'sources} x {pretty, minify+obfuscate} x {source_mapping_url default | None | explicit} over small corpus '
-        'programs; read(): {factory | open stream} x {valid | syntax error | read fault}. For every arrangement every '
+        'programs, nodes also given as a lazy iterable (its steps are fault points) and as an empty list (a usage error: what was opened must still be closed); read(): {factory | open stream} x {valid | syntax error | read fault}. For every arrangement every '
         'fault point of the fault-free run is enumerated and injected twice, once as an Exception subclass and once as a failure that is not an Exception (as KeyboardInterrupt / SystemExit are). A case = (arrangement, fault point or '
         '"none"); every case is non-trivial; distinct by that pair.')
 ASSUMPTIONS = ['behaviour when close() itself raises, and non-string stream names, are not demanded',
@@ -161,8 +161,10 @@ def selfcheck(ctx):
     return 6
 
 
-def make_nodes(kind, names):
+def make_nodes(kind, names, log=None):
     from calmjs.parse.parsers.es5 import parse
+    if kind == 'empty':
+        return [], []
     trees = []
     for i, (text, name) in enumerate(names):
         t = parse(text)
@@ -174,7 +176,14 @@ def make_nodes(kind, names):
     if kind == 'list':
         return list(trees), trees
     if kind == 'generator':
-        return (t for t in trees), trees
+        # a lazy iterable whose steps are fault points (a file that cannot be read, in the README's idiom
+        # io.write(printer, (io.read(parse, f) for f in files), ...))
+        def lazy():
+            for t in trees:
+                if log is not None:
+                    log.event('nodes', 'next')
+                yield t
+        return lazy(), trees
     return trees, trees
 
 
@@ -215,7 +224,7 @@ def run_write(ctx, arr, fault=None):
             src_names.append((t, 'src/f%d.js' % i))
         else:
             src_names.append((t, None))
-    nodes, trees = make_nodes(node_kind, src_names)
+    nodes, trees = make_nodes(node_kind, src_names, log)
     streams = []
     kw_out = {} if out_name is NotImplemented else {'name': out_name}
     kw_map = {} if map_name is NotImplemented else {'name': map_name}
@@ -364,6 +373,15 @@ def report(ctx, viol, arr, fault, what):
 
 def explore_write(ctx, arr):
     obs = run_write(ctx, arr)
+    if arr[3] == 'empty':
+        # nothing to write is a usage error (TypeError by the documented behaviour); whatever was opened for it
+        # has to be closed all the same
+        ctx.count('empty_nodes:%s' % (type(obs['raised']).__name__ if obs['raised'] is not None else 'no_error'))
+        viol = audit_closure(obs['log'], obs['streams'], None, None)
+        ctx.hit('close_checked', len(obs['streams']))
+        ctx.case((arr_key(arr), 'empty'), True)
+        report(ctx, viol, arr, None, 'write')
+        return
     viol = audit_closure(obs['log'], obs['streams'], None, obs['raised'])
     ctx.hit('close_checked', len(obs['streams']))
     if obs['raised'] is None:
@@ -463,7 +481,7 @@ def arrangements(ctx):
     outs = ['factory', 'open']
     maps = ['none', 'factory', 'open', 'same']
     names = ['absolute', 'relative', 'missing']
-    nodes = ['single', 'list', 'generator', 'several']
+    nodes = ['single', 'list', 'generator', 'several', 'empty']
     printers = ['pretty', 'minify_obfuscate']
     urls = ['default', 'none', 'explicit']
     allc = list(itertools.product(outs, maps, names, nodes, printers, urls, [True, False]))
@@ -474,7 +492,8 @@ def arrangements(ctx):
         # a deterministic core (every names x map kind x url kind with path normalisation on, every
         # output kind x map kind x node kind) plus a seeded sample of the rest
         core = [c for c in allc if (c[6] and c[3] == 'list' and c[4] == 'pretty' and c[0] == 'factory')
-                or (c[2] == 'absolute' and c[5] == 'default' and c[6] and c[4] == 'minify_obfuscate')]
+                or (c[2] == 'absolute' and c[5] == 'default' and c[6] and c[4] == 'minify_obfuscate')
+                or (c[3] in ('generator', 'empty') and c[2] == 'relative' and c[5] == 'default' and c[6] and c[4] == 'pretty')]
         rest = [c for c in allc if c not in core]
         allc = core + rest[:24]
     for i, c in enumerate(allc):
